@@ -46,8 +46,11 @@ def main() -> int:
     rc.write_text(f"[run]\nsource = {SRC}\nparallel = True\nconcurrency = thread,multiprocessing\npatch = _exit\nsigterm = True\n")
 
     def one(pid: str):
-        env = dict(os.environ, VERIF_COVERAGE="1", VERIF_EVIDENCE_DIR=str(SCRATCH / "evidence"), COVERAGE_RCFILE=str(rc))
-        p = subprocess.run([PY, "-m", "coverage", "run", f"--rcfile={rc}", f"--data-file={SCRATCH}/data.{pid}", "./check", pid, "--tier", tier, "--no-lean"],
+        # one rc file per check: processes started through multiprocessing read the data file name from it (not from the command line)
+        rc1 = SCRATCH / f"rc.{pid}"
+        rc1.write_text(rc.read_text() + f"data_file = {SCRATCH}/data.{pid}\n")
+        env = dict(os.environ, VERIF_COVERAGE="1", VERIF_EVIDENCE_DIR=str(SCRATCH / "evidence"), COVERAGE_RCFILE=str(rc1))
+        p = subprocess.run([PY, "-m", "coverage", "run", f"--rcfile={rc1}", "./check", pid, "--tier", tier, "--no-lean"],
                            cwd=VERIF, env=env, stdout=subprocess.PIPE, stderr=subprocess.STDOUT)
         last = [l for l in p.stdout.decode(errors="replace").splitlines() if l.startswith(("PASS", "FAIL", "HARNESS"))][-1:]
         print(pid, p.returncode, (last or ["?"])[0][:160], flush=True)
